@@ -82,7 +82,6 @@ def code_eval(opm, System, case):
     except Exception as e:  # noqa: BLE001
         return "ctor:" + err_kind(e), [], True
     before = snapshot(s)
-    odict = copy.deepcopy({k: v for k, v in vars(o).items()})
     try:
         with np.errstate(all="ignore"), warnings.catch_warnings():
             warnings.simplefilter("ignore")
@@ -90,7 +89,9 @@ def code_eval(opm, System, case):
         tag, vals = "ok", [float(x) for x in out]
     except Exception as e:  # noqa: BLE001
         tag, vals = err_kind(e), []
-    pure = snapshot(s) == before and odict == {k: v for k, v in vars(o).items()}
+    # purity = the System is untouched.  State kept inside the order-parameter object is not the System; whether
+    # such state can change a later result is decided by the history predicate (check_history).
+    pure = snapshot(s) == before
     return tag, vals, pure
 
 
@@ -494,6 +495,8 @@ def check_property(opm, System, kind, case, extra):
     if kind == "purity":
         _, _, pure = code_eval(opm, System, case)
         return None if pure else ("C20:purity", f"{name}.calculate modified the System (or itself)")
+    if kind == "history":
+        return check_history(opm, System, case["op"], case["frames"])
     if kind == "calculate-order":
         r = check_calc_order(opm, System, case)
         return r and (SIG_CO, r)
@@ -612,6 +615,104 @@ def check_calc_order(opm, System, case, model=None):
                 return (f"{name} vel_rev={vr} route={rt}: calculate_order gives {t} {v}, the model on velocities "
                         f"times (-1)^vel_rev gives {mt} {[str(x) for x in mv]}")
     return None
+
+
+# --------------------------------------------------------------------------- long-lived objects
+SIG_H = "C20:history-dependent-result"
+
+
+def call_obj(o, s):
+    try:
+        with np.errstate(all="ignore"), warnings.catch_warnings():
+            warnings.simplefilter("ignore")
+            return "ok", [float(x) for x in o.calculate(s)]
+    except Exception as e:  # noqa: BLE001
+        return err_kind(e), []
+
+
+def check_history(opm, System, op, frames, models=None):
+    """ONE order-parameter object (and ONE engine holding it, as the library does) evaluated over a sequence of
+    systems with different boxes; every evaluation must equal what a fresh object gives for that system alone
+    (and the model's value for that system).  -> None | (signature, what)"""
+    name = op[0]
+    long_obj = build(opm, op)
+    table = {}
+    eng = make_engine(build(opm, op), table)       # a second long-lived object, used through calculate_order
+    for j, fr in enumerate(frames):
+        case = {"op": op, **fr}
+        ks = kinds_of(case)
+        kinds, skip = ks if ks else (["lin"] * 3, [False] * 3)
+        # fresh object, this system only
+        tf, vf = call_obj(build(opm, op), mk_sys(System, case))
+        # long-lived object, direct call (+ System purity)
+        s = mk_sys(System, case)
+        before = snapshot(s)
+        tl, vl = call_obj(long_obj, s)
+        if snapshot(s) != before:
+            return ("C20:purity", f"{name}.calculate modified the System (frame {j} of a sequence, indices {op[1:-1]})")
+        if tl != tf or (tf == "ok" and not same_vals(vl, vf, kinds, skip)):
+            return (SIG_H, f"{name}: frame {j} (box {fr['box']}) evaluated by an object that has already seen "
+                           f"{[f['box'] for f in frames[:j]]} gives {tl} {vl}; a fresh object gives {tf} {vf}")
+        # long-lived engine, alternating routes of calculate_order
+        xyz, vel = fl(case["pos"]), fl(case["vel"])
+        box = None if case["box"] is None else np.array([float(Fr(x)) for x in case["box"]], dtype=float)
+        table["frame.xyz"] = (xyz, vel, box)
+        s2 = System()
+        s2.config = ("frame.xyz", j)
+        s2.box = None
+        try:
+            with np.errstate(all="ignore"), warnings.catch_warnings():
+                warnings.simplefilter("ignore")
+                out = eng.calculate_order(s2) if j % 2 == 0 else eng.calculate_order(s2, xyz=xyz, vel=vel, box=box)
+            te, ve = "ok", [float(x) for x in out]
+        except Exception as e:  # noqa: BLE001
+            te, ve = err_kind(e), []
+        if te != tf or (tf == "ok" and not same_vals(ve, vf, kinds, skip)):
+            return (SIG_H, f"{name}: frame {j} (box {fr['box']}) through a long-lived engine.calculate_order gives {te} {ve}; "
+                           f"a fresh object gives {tf} {vf} (boxes seen before: {[f['box'] for f in frames[:j]]})")
+        # the model's value for this system alone
+        if models is not None:
+            mt, mv = models[j]
+            if mt == "nan":
+                ok = tl == "ok" and all(math.isnan(x) for x in vl)
+            elif mt != "ok":
+                ok = tl == mt
+            else:
+                ev_, k_, s_ = tail(name, mv)
+                ok = tl == "ok" and same_vals(vl, ev_, k_, s_)
+            if not ok:
+                return (SIG_H, f"{name}: frame {j} (box {fr['box']}) on a long-lived object gives {tl} {vl}; the model, a "
+                               f"function of the system only, gives {mt} {[str(x) for x in mv]}")
+    return None
+
+
+def rnd_history(rng, name, contiguous):
+    """one op with contiguous or non-contiguous indices and 4-6 frames with pairwise different boxes"""
+    n = rng.randint(6, 9)
+    if name in ("position", "velocity"):
+        op = rnd_op(rng, n, name)
+    else:
+        k = NIDX[name]
+        if contiguous:
+            st = rng.choice([0, 0, rng.randint(0, n - k)])
+            ids = list(range(st, st + k))
+        else:
+            while True:
+                ids = rng.sample(range(n), k)
+                if any(b - a != 1 for a, b in zip(ids, ids[1:])):
+                    break
+        op = [name] + ids + [int(rng.random() < 0.85)]
+    frames, seen = [], set()
+    for _ in range(rng.randint(4, 6)):
+        for _try in range(50):
+            c = tie_free_case(rng, boxform=rng.choice(["3", "9", "3", "9", "none"]), n=n)
+            c["op"] = op
+            key = str(c["box"][:3]) if c["box"] else "none"
+            if key not in seen and not has_tie(c):
+                break
+        seen.add(key)
+        frames.append({"pos": c["pos"], "vel": c["vel"], "box": c["box"]})
+    return op, frames
 
 
 # --------------------------------------------------------------------------- run
@@ -799,6 +900,29 @@ def run(ctx):
             ctx.fail(SIG_CO, r, {"kind": "calculate-order", "case": c, "extra": {}})
         else:
             ctx.distinct(("calculate-order", str(c)))
+    # ---- long-lived objects: one object (and one engine) per sequence of systems with different boxes
+    hist = []
+    for rep in range(10 if q else 80):
+        for nm in names6:
+            hist.append(rnd_history(rng, nm, contiguous=rep % 2 == 0))
+    hmodels = [None] * len(hist)
+    if have_model:
+        var = "rep" if ctx.extra["variant"] == "repaired" else "asis"
+        flat = [line({"op": op, **fr}, var) for op, frames in hist for fr in frames]
+        outh = [parse_model(x)[:2] for x in ctx.driver(flat)]
+        pos_ = 0
+        for k, (op, frames) in enumerate(hist):
+            hmodels[k] = outh[pos_: pos_ + len(frames)]
+            pos_ += len(frames)
+    for k, (op, frames) in enumerate(hist):
+        ctx.count(3 * len(frames), branch="history:" + op[0])
+        r = check_history(opm, System, op, frames, hmodels[k])
+        if r:
+            ctx.fail(r[0], r[1], {"kind": "history", "case": {"op": op, "frames": frames}, "extra": {}})
+        else:
+            ctx.distinct(("history", str(op), str(frames)))
+        if k == 7:
+            ctx.sample({"stream": "history", "op": op, "boxes": [f["box"] for f in frames]})
     # observation (not a failure; reported for a decision): Path.reverse(order_function) recomputes the
     # orders of velocity-dependent parameters with order_function.calculate(phasepoint), which reads
     # system.vel and ignores the vel_rev flag that reverse() has just toggled.
@@ -822,13 +946,18 @@ def run(ctx):
             "note": "Velocity(0,'x') on a 3-frame path; the classes themselves change sign under v -> -v (theorem velocity_reversal_sign)"}
     except Exception as e:  # noqa: BLE001
         ctx.extra["path_reverse_observation"] = "probe failed: " + err_kind(e)
-    ctx.assumptions += [
+    new_assumptions = [
         "system.pos/vel are float (N,3) arrays, system.box is None or a 1-D float array (the default 3x3 zero box of a bare System() is not modelled)",
         "sqrt/arctan2/rad2deg/sin/cos and the final quotients are applied outside the Lean model (same formulas in floating point, compared at rel 1e-9; angles through sin/cos)",
         "ill-conditioned outputs are not compared: dihedral with hypot(numer, denom) < 1e-3, puckering with |A x B|^2 < 1e-2 or Q < 1e-2 (phi: q2 < 1e-2)",
         "float rint(d * (1/L)) equals the exact rint(d/L): ensured by tie-free inputs for general dyadic L and by power-of-two L in the tie stream",
         "image-shift invariance of the signed parameters is claimed (and tested) only away from exact half-box ties; at ties the sign depends on the image (proved)",
+        "'the result is a function of the system only' is true of the Lean model by construction (value/calculate take only the System; "
+        "there is no object state), so no separate theorem states it: its content is in the tie, which evaluates ONE long-lived object and "
+        "ONE long-lived engine over sequences of systems with different boxes against a fresh object and against the model per frame",
+        "state kept inside an order-parameter object is not counted as modifying the System; whether it can influence a later result is decided by the history predicate",
     ]
+    ctx.assumptions += [a for a in new_assumptions if a not in ctx.assumptions]
 
 
 def replay(ctx, obj):
